@@ -41,6 +41,7 @@ class Origin:
         self.prog = prog or body.prog
         self.max_depth = max_depth
         self._memo = {}
+        self.phi_sites = {}  # phi expression -> {(defining block | None, alternative)}
         self._active = set()
         self._loop_hits = 0
 
@@ -213,12 +214,17 @@ class Origin:
                 else:
                     base = self._resolve(local, path, (bi, "term"), depth + 1)
                     outs.append(("upd", base, q[len(path):], val))
+        sites = [(d[1] if d[0] in ("full", "call", "partial", "callpartial") else None) for d in defs]
+        pairs = list(zip(sites, outs)) if len(sites) == len(outs) else []
         outs = list(dict.fromkeys(outs))
         if not outs:
             return ("undef", local)
         if len(outs) == 1:
             return outs[0]
-        return ("phi", frozenset(outs))
+        phi = ("phi", frozenset(outs))
+        if pairs:
+            self.phi_sites.setdefault(phi, set()).update(pairs)
+        return phi
 
     def _reaching(self, local, path, at):
         """Backward search for the definitions of local(.path) reaching program point `at`."""
